@@ -105,6 +105,9 @@ def convert(raw, sid, kind, shift=0):
     if scope == "ns":
         pref["ns"] = "ns1"
     sched.append(dict(pref, s="ev", op="setfield", path=["spec", "x"], value="2"))
+    # related objects change while the parent's new generation has not been synced yet (no cached customize answer for it)
+    for o in (WORLD[0], WORLD[4], WORLD[6]):
+        sched.append(dict(oref(o), s="ev", op="touch"))
     sched += syncs()
     for o in (WORLD[1], WORLD[3], WORLD[0]):
         sched.append(dict(oref(o), s="ev", op="touch"))
